@@ -566,6 +566,61 @@ pub fn run(ctx: &Ctx) {
         }).chunk(1).trace(0));
     }
     // directly constructed statistics with large counters: merge is an exact sum
+    // the largest messages the length field allows, through the default reader and a minimal one
+    {
+        let lens: Vec<usize> = (65_500..=65_535).collect();
+        let sp = Space::new(&[lens.len(), 2, 2, 2]);
+        let s2 = sp.clone();
+        let lens = &lens;
+        ctx.run_family(Family::new("c10.max_size_messages", sp.size(), "streams [log message, a message of EVERY declared length 65500..=65535 (with / without extended header), log message] x storage headers on/off x {default reader, minimal capacities}: every message is visited and tallied", move |i, loc| {
+            let c = s2.coords(i);
+            let (l, with_ext, storage, default_reader) = (lens[c[0]], c[1] == 1, c[2] == 1, c[3] == 1);
+            let small = Sym { ecu: Some("E1"), ext: Some((0, 4, true, "A1", "C1")), short: 0 };
+            let e = if with_ext { Some(ext(MSTP_CONTROL, 1, "BIGA", "BIGC")) } else { None };
+            let headers = 4 + 4 + if with_ext { 10 } else { 0 };
+            // control / non-verbose payload: 4 (1) id bytes + filler so that the declared length is exactly l
+            let p = if with_ext { RefPayload::Control(0x11, vec![0xAB; l - headers - 1]) } else { RefPayload::NonVerbose(7, vec![0xAB; l - headers - 4]) };
+            let mut big = msg_with(0x04, 1, e, p, if storage { Some(storage_hdr(1)) } else { None });
+            big.ecu = Some("BIG".into());
+            let big_bytes = encode(&big).0;
+            assert_eq!(big_bytes.len() - if storage { 16 } else { 0 }, l, "harness: big message length");
+            let mut whole = shorten(encode(&build(&small, storage, 0)).0, &small, storage);
+            whole.extend_from_slice(&big_bytes);
+            whole.extend_from_slice(&shorten(encode(&build(&small, storage, 2)).0, &small, storage));
+            let mut expect = tally(&[small.clone(), small.clone()]);
+            expect.ecu.entry("BIG".into()).or_insert([0; 8])[0] += 1;
+            if with_ext {
+                expect.app.entry("BIGA".into()).or_insert([0; 8])[0] += 1;
+                expect.ctx.entry("BIGC".into()).or_insert([0; 8])[0] += 1;
+            }
+            expect.non_verbose = true;
+            loc.evals += 1;
+            loc.traces += 1;
+            loc.transitions += 1;
+            loc.state(i + 0x6000_0000, true);
+            let what = || format!("[log, message of declared length {} ({} extended header), log], storage headers {}, {} reader", l, if with_ext { "with" } else { "without" }, storage, if default_reader { "default" } else { "minimal-capacity" });
+            let details = || json!({"case": what()});
+            let got = catch(|| {
+                let mut c = StatisticInfoCollector::default();
+                let r = if default_reader {
+                    let mut reader = DltMessageReader::new(&whole[..], storage);
+                    collect_statistics(&mut reader, &mut c)
+                } else {
+                    let mut reader = DltMessageReader::with_capacity(65_551, 65_551, &whole[..], storage);
+                    collect_statistics(&mut reader, &mut c)
+                };
+                r.map(|_| c.collect())
+            });
+            match got {
+                Err(p) => loc.violation("collect_statistics panics", format!("collect_statistics panicked ({}) on {}", p, what()), details()),
+                Ok(Err(e)) => loc.violation("collect_statistics fails on a well-formed stream", format!("collect_statistics returned {:?} on {}", e, what()), details()),
+                Ok(Ok(info)) => match canon(&info) {
+                    Ok(cn) if cn == expect => loc.outcome("tally equal"),
+                    other => loc.violation("collected statistics differ from the independent tally", format!("{}:\n    collected: {:?}\n    tally:     {:?}", what(), other, expect), details()),
+                },
+            }
+        }));
+    }
     {
         let vals: Vec<usize> = vec![0, 1, 255, 256, 65_535, 65_536, (1usize << 31) - 1, 1usize << 31, (1usize << 32) - 1, 1usize << 32, (1usize << 32) + 5, usize::MAX / 2 - 3];
         let nv = vals.len();
